@@ -131,7 +131,11 @@ def norm(n, env, depth=0):
     if k == "Ret":
         return ("ret", norm(n["e"], env, depth + 1) if n.get("e") is not None else ("unit",))
     if k == "Closure":
-        return ("closure", norm(n["body"], env, depth + 1))
+        e2 = env.child()
+        for i, p_ in enumerate(n.get("params", [])):
+            for bn in H.pat_binds(p_):
+                e2.roles[bn] = ("cp", i)
+        return ("closure", norm(n["body"], e2, depth + 1))
     if k == "Struct":
         return ("struct", n["res"].get("def"), tuple((f["name"], norm(f["e"], env, depth + 1)) for f in n["fields"]))
     if k == "Call":
